@@ -18,8 +18,9 @@ class NotSym(Exception):
 
 
 class Vec:
-    def __init__(self, comps: List[RF]):
+    def __init__(self, comps: List[RF], unbatched: bool = False):
         self.c = list(comps)
+        self.unbatched = unbatched  # a single 1-D vector (row 0 selected), not one vector per row
 
     def __len__(self):
         return len(self.c)
@@ -46,9 +47,9 @@ PI = RF.atom("pi")
 
 def lift(a: Val, b: Val):
     if isinstance(a, RF) and isinstance(b, Vec):
-        a = Vec([a] * len(b))
+        a = Vec([a] * len(b), unbatched=b.unbatched)
     if isinstance(b, RF) and isinstance(a, Vec):
-        b = Vec([b] * len(a))
+        b = Vec([b] * len(a), unbatched=a.unbatched)
     return a, b
 
 
@@ -64,7 +65,7 @@ def binop(op: str, a: Val, b: Val) -> Val:
             b = Vec(b.c * len(a))
         if len(a) != len(b):
             raise NotSym(f"vector lengths {len(a)} and {len(b)}")
-        return Vec([f(x, y) for x, y in zip(a.c, b.c)])
+        return Vec([f(x, y) for x, y in zip(a.c, b.c)], unbatched=a.unbatched or b.unbatched)
     if isinstance(a, Mat) and isinstance(b, RF):
         return Mat([[f(x, b) for x in r] for r in a.r])
     if isinstance(a, RF) and isinstance(b, Mat):
@@ -187,7 +188,10 @@ class SymEval:
             raise NotSym(f"component {k} of {type(base).__name__}")
         # leading batch index / row selection: x[0], x[0, :], x[i]
         if len(elts) >= 1 and all(trivial(x) for x in elts[1:]) and isinstance(elts[0], (ast.Constant, ast.Name)):
-            return self.ev(e.value)
+            v = self.ev(e.value)
+            if isinstance(v, Vec) and len(elts) == 1:
+                return Vec(v.c, unbatched=True)
+            return v
         # strided column selections box[::2] are handled by callers
         raise NotSym(f"selection {dump(e)[:60]}")
 
@@ -248,6 +252,10 @@ class SymEval:
             raise NotSym("trig of a vector")
         if name in ("cat", "concat", "concatenate", "column_stack", "hstack") and args and isinstance(args[0], (ast.Tuple, ast.List)):
             vals = [self.ev(x) for x in args[0].elts]
+            if name == "column_stack" and len(vals) >= 2 and all(isinstance(v, Vec) and v.unbatched for v in vals) and len({len(v) for v in vals}) == 1:
+                # 1-D vectors become the COLUMNS of a matrix
+                n = len(vals[0])
+                return Mat([[v.c[i] for v in vals] for i in range(n)])
             comps: List[RF] = []
             for v in vals:
                 if isinstance(v, RF):
@@ -257,7 +265,7 @@ class SymEval:
                 else:
                     raise NotSym("cat of matrices")
             return Vec(comps)
-        if name == "stack" and args and isinstance(args[0], (ast.Tuple, ast.List)):
+        if name in ("stack", "vstack", "row_stack") and args and isinstance(args[0], (ast.Tuple, ast.List)):
             vals = [self.ev(x) for x in args[0].elts]
             if all(isinstance(v, Vec) for v in vals):
                 return Mat([v.c for v in vals])
